@@ -51,7 +51,15 @@ func runSolver(s solverSpec, file string, timeoutS int) (status, out string, dur
 	_ = cmd.Run()
 	dur = time.Since(t0).Seconds()
 	out = buf.String()
-	first := strings.TrimSpace(strings.SplitN(out, "\n", 2)[0])
+	first := ""
+	for _, ln := range strings.Split(out, "\n") {
+		ln = strings.TrimSpace(ln)
+		if ln == "" || strings.HasPrefix(ln, "WARNING") {
+			continue
+		}
+		first = ln
+		break
+	}
 	switch first {
 	case "unsat", "sat", "unknown":
 		status = first
@@ -140,6 +148,15 @@ func solveOne(o *Obligation, scratch string, timeoutS int, cross bool) {
 	o.TimeS = total
 	if o.Status != "discharged" {
 		o.Output = strings.Join(outputs, "\n")
+		nerr := 0
+		for _, s := range outputs {
+			if strings.Contains(s, "(error") {
+				nerr++
+			}
+		}
+		if nerr == len(outputs) && o.Status == "unknown" {
+			o.Status = "smt-error"
+		}
 	}
 	if cross && o.Status == "discharged" && o.Expect != "sat" {
 		// thorough tier: no other solver may answer sat
